@@ -51,6 +51,11 @@ type Cache struct {
 	DNSAutoAllocate bool
 	// AllowAny indicates if the proxy should allow all outbound traffic or only known registries
 	AllowAny bool
+	// IncludeRequestAttemptCount and XForwardedHost are the proxy's effective ProxyHeaders settings
+	// (ProxyConfig from the node metadata, else the mesh default): the first is set on every virtual
+	// host, the second on the catch-all route, and both are part of the cached RouteConfiguration.
+	IncludeRequestAttemptCount bool
+	XForwardedHost             bool
 
 	ListenerPort     int
 	Services         []*model.Service
@@ -143,6 +148,10 @@ func (r *Cache) Key() any {
 	h.WriteString(strconv.FormatBool(r.DNSAutoAllocate))
 	h.Write(Separator)
 	h.WriteString(strconv.FormatBool(r.AllowAny))
+	h.Write(Separator)
+	h.WriteString(strconv.FormatBool(r.IncludeRequestAttemptCount))
+	h.Write(Separator)
+	h.WriteString(strconv.FormatBool(r.XForwardedHost))
 	h.Write(Separator)
 
 	for _, svc := range r.Services {
